@@ -21,8 +21,8 @@ from framework import Case
 from impl import dltype
 
 PROP = "C16"
-GENERATED = ['Wrapper', 'Classes', 'SrcDecorate', 'SrcHints', 'HintLoop', 'Decorate', 'ClassDecor', 'Resolve']  # generated files this check's tie depends on
-LEAN_MODULES = ["Properties.C16", "Properties.CoreWrap", "Properties.CoreClasses", "Properties.Prov.Decorate", "Properties.Prov.Hints", "Properties.CoreHints", "Properties.CoreDecorate", "Properties.CoreClassDecor", "Properties.CoreResolve"]
+GENERATED = ['Wrapper', 'Classes', 'SrcDecorate', 'SrcHints', 'HintLoop', 'Decorate', 'ClassDecor', 'Resolve', 'SrcSurface']  # generated files this check's tie depends on
+LEAN_MODULES = ["Properties.C16", "Properties.CoreWrap", "Properties.CoreClasses", "Properties.Prov.Decorate", "Properties.Prov.Hints", "Properties.CoreHints", "Properties.CoreDecorate", "Properties.CoreClassDecor", "Properties.CoreResolve", "Properties.Prov.Surface"]
 LEVEL = "proof"
 RULE = (
     "exhaustive over a family of signature shapes: 1-3 parameters x kinds {positional-only, positional-or-keyword, keyword-only} x "
@@ -30,7 +30,8 @@ RULE = (
     "classmethod, staticmethod} x call style {positional, keyword, defaults omitted}; every case is run on a decorated function and on its "
     "undecorated twin (name, doc, signature, arguments seen by the body, returned object, propagated exception), plus a `functools.wraps` decorator underneath that records how every argument arrives; dataclass option sets "
     "{frozen, slots, kw_only, eq, defaults} and NamedTuples with/without defaults: fields, ==, repr, isinstance, immutability, pickle, copy; dataclasses with annotated names "
-    "that hold no value after __init__ (field(init=False), ClassVar, InitVar, a tensor set in __post_init__, with slots / frozen). "
+    "that hold no value after __init__ (field(init=False), ClassVar, InitVar, a tensor set in __post_init__, with slots / frozen); bodies (and __init__ / __post_init__ of decorated dataclasses) raising exception objects of 21 classes "
+    "(ValueError, TypeError, KeyError, StopIteration, KeyboardInterrupt, SystemExit, GeneratorExit, an ExceptionGroup, a DLTypeError of an inner check, ...) under every kind of return hint: the caller catches that very object. "
     "non-trivial = distinct case with at least one annotated parameter/field"
 )
 TRUSTED_EXTRA = ["observed-only (not proved): functools.wraps metadata, dataclass/NamedTuple equality, repr, immutability, pickling"]
@@ -383,6 +384,72 @@ def class_cases():
     return out
 
 
+EXC_HINTS = {"none": "", "single": " -> Annotated[np.ndarray, A]", "tuple": " -> tuple[Annotated[np.ndarray, A], Annotated[np.ndarray, A]]",
+             "optional": " -> Annotated[np.ndarray, A] | None", "plain": " -> int"}
+
+
+class _Stop(BaseException):
+    """an exception outside the Exception hierarchy, like KeyboardInterrupt / SystemExit / GeneratorExit"""
+
+
+def _exception_objects():
+    inner_err = None
+    try:
+        dltype.FloatTensor["a b"].check(np.zeros((2,), np.float32), "inner")
+    except dltype.DLTypeError as e:
+        inner_err = e
+    objs = [ValueError("too many values to unpack"), TypeError("unsupported"), KeyError("a"), IndexError(3), AttributeError("shape"), RuntimeError("cuda"),
+            StopIteration(), AssertionError(), NameError("Late"), SyntaxError("bad"), ZeroDivisionError(), OSError(2, "no file"), NotImplementedError(),
+            UserWarning("as an exception"), KeyboardInterrupt(), SystemExit(3), GeneratorExit(), _Stop(), BodyBoom("boom"), ExceptionGroup("g", [ValueError(1)])]
+    if inner_err is not None:
+        objs.append(inner_err)
+    return objs
+
+
+def observe_exception(case) -> str:
+    """the body raises an exception OBJECT of some class; the caller must catch that very object, with its class, args and
+    traceback chain untouched, whatever the return hint of the function says — and the body ran exactly once"""
+    kind, ret, exc = case.meta["kind"], case.meta["ret"], case.meta["exc"]
+    MOD.EXC = exc
+    MOD.LOG = []
+    body = "    LOG.append(1)\n    raise EXC\n"
+    if kind == "func":
+        src = f"@dltype.dltyped()\ndef f_exc(x: Annotated[np.ndarray, A]){EXC_HINTS[ret]}:\n{body}"
+        exec(compile(src, "<c16exc>", "exec"), MOD.__dict__)  # noqa: S102
+        call = lambda: MOD.f_exc(MOD.GOOD)  # noqa: E731
+    elif kind == "method":
+        src = f"class K_exc:\n    @dltype.dltyped()\n    def f(self, x: Annotated[np.ndarray, A]){EXC_HINTS[ret]}:\n" + "".join("    " + l + "\n" for l in body.splitlines())
+        exec(compile(src, "<c16exc>", "exec"), MOD.__dict__)  # noqa: S102
+        call = lambda: MOD.K_exc().f(MOD.GOOD)  # noqa: E731
+    else:
+        src = ("@dltype.dltyped_dataclass()\n@dataclasses.dataclass\nclass D_exc:\n    x: Annotated[np.ndarray, A]\n    def __post_init__(self):\n" if kind == "dc_post" else
+               "@dltype.dltyped_dataclass()\n@dataclasses.dataclass\nclass D_exc:\n    x: Annotated[np.ndarray, A]\n    def __init__(self, x):\n") + "".join("    " + l + "\n" for l in body.splitlines())
+        exec(compile(src, "<c16exc>", "exec"), MOD.__dict__)  # noqa: S102
+        call = lambda: MOD.D_exc(MOD.GOOD)  # noqa: E731
+    args0, ctx0, cause0 = exc.args, exc.__context__, exc.__cause__
+    try:
+        call()
+        return "differs the-exception-was-swallowed"
+    except BaseException as e:  # noqa: BLE001
+        diffs = []
+        if e is not exc:
+            diffs.append(f"another-exception({type(e).__name__}: {str(e)[:60]})")
+        elif e.args != args0 or e.__cause__ is not cause0 or (e.__context__ is not ctx0):
+            diffs.append("exception-attributes-changed")
+        if len(MOD.LOG) != 1:
+            diffs.append(f"body-ran-{len(MOD.LOG)}-times")
+        return "differs " + ",".join(diffs) if diffs else "same"
+
+
+def exception_cases():
+    out = []
+    for i, exc in enumerate(_exception_objects()):
+        for kind in ("func", "method", "dc_post", "dc_init"):
+            for ret in (EXC_HINTS if kind in ("func", "method") else ["none"]):
+                out.append(Case(f"BODYRAISES\t{kind}\treturn-hint={ret}\t{type(exc).__name__}", "exception", {"kind": kind, "ret": ret, "exc": exc}))
+    return out
+
+
 def expect(case, got):
     if got.startswith("same") or got.startswith("skip"):
         return None
@@ -415,6 +482,7 @@ def custom(run, tier):
     cs = func_cases(tier, run.rng)
     run.observe(cs, observe_func, expect, "decorated function differs from its undecorated twin")
     run.observe(class_cases(), observe_class, expect, "decorated class differs from its undecorated twin")
+    run.observe(exception_cases(), observe_exception, expect, "an exception raised by the body / by the class's own __init__ / __post_init__ does not reach the caller unchanged")
     fields = [Case(f"TWINFIELDS\t{k}", "fields", {"shape": k}) for k in FIELD_SHAPES]
     run.observe(fields, observe_fields, expect, "a decorated dataclass with an annotated name that holds no value after __init__ differs from its twin")
     nested = [Case(f"TWINNESTED\t{k}", "nested", {"kind": k}) for k in ("nt", "dc")]
